@@ -4,6 +4,7 @@ with its reason phrase, Content-Length = body bytes, no body for HEAD/OPTIONS, n
 twice, client text cannot add or split header lines (response header NAMES are from the server's
 own fixed vocabulary), and under every short-write script the peer receives the whole response."""
 from vlib import common as C, serve as S, reqgen as G, strict_http as H, servecheck as K, gen_c05 as X
+from props import c05_stream as T
 
 DRIVERS = ['Serve']   # model driver files this check runs: scopes translator failures to the tables they (and the proofs) import
 TRUSTED = ['scripted transport: any non-empty prefix may be accepted per write call; flush is a separate call']
@@ -14,6 +15,16 @@ SERVER_HEADER_NAMES = {x.lower() for x in [
     'Access-Control-Allow-Origin', 'Access-Control-Allow-Credentials', 'Access-Control-Allow-Methods', 'Access-Control-Allow-Headers',
     'Access-Control-Expose-Headers', 'Access-Control-Max-Age', 'Accept-CH', 'Critical-CH', 'Vary', 'X-Content-Type-Options', 'Accept-Ranges',
     'X-Frame-Options', 'Date-Unix-Epoch-Nanos', 'Cache-Control', 'Last-Modified-Unix-Epoch-Nanos', 'Content-Type', 'Content-Range', 'Content-Length']}
+
+# response fields of the HTTP registry a server feature may start to send (compression, validators, connection handling, redirects,
+# authentication, security policies): not evidence of client text in the head by their NAME - a line of this kind that the client
+# wrote is recognised by its value (the marker clause below) and by the grammar.  Set-Cookie stays out: no feature on this path sets one.
+STANDARD_RESPONSE_FIELDS = {x.lower() for x in [
+    'Date', 'Server', 'Connection', 'Keep-Alive', 'Content-Encoding', 'Content-Language', 'Content-Location', 'Content-Disposition', 'Content-MD5', 'Digest', 'Content-Digest',
+    'Repr-Digest', 'ETag', 'Last-Modified', 'Expires', 'Age', 'Allow', 'Location', 'Retry-After', 'Upgrade', 'WWW-Authenticate', 'Proxy-Authenticate', 'Preference-Applied', 'Trailer',
+    'Transfer-Encoding', 'Link', 'Strict-Transport-Security', 'Content-Security-Policy', 'Referrer-Policy', 'Permissions-Policy', 'Cross-Origin-Resource-Policy',
+    'Cross-Origin-Opener-Policy', 'Cross-Origin-Embedder-Policy', 'Timing-Allow-Origin', 'Access-Control-Allow-Private-Network', 'Sec-WebSocket-Accept', 'Alt-Svc', 'Server-Timing',
+    'Accept-Encoding', 'Accept-Patch', 'Accept-Post', 'Warning', 'Via']}
 
 HOSTILE = ['http://a\rX-Evil: 1', 'http://a\nX-Evil: 1', 'http://a\r\nX-Evil: 1', 'http://a\r\n\r\n<html>', 'a\x00b', 'a: b: c', ': x', 'x:',
            '\r', '\n', 'é\r\nSet-Cookie: a=b', 'http://a\x0bX-Evil: 1', 'http://a\x0cX-Evil: 1', 'http://a\x85X-Evil: 1', 'http://a X-Evil: 1']
@@ -86,6 +97,7 @@ def build_extra(rng, tier):
     else:
         default = [X.sites_batch(rng, tier, k, 8) for k in range(8)] + [X.framing_batch(rng, tier), X.echo_batch(rng, tier), X.length_batch(rng, tier, head)]
         for _ in range(6): default += [X.sites_batch(rng, 'quick'), X.framing_batch(rng, tier), X.echo_batch(rng, tier)]
+    default += X.second_pass_batches(rng, tier)
     return [(None, default)] + [(env, [(tree, cases)]) for env, tree, cases in X.config_batches(rng, tier)]
 
 def run_groups(groups):
@@ -111,6 +123,10 @@ def same_answer(il, ml):
     except ValueError: return False
 
 def judge(res, results, status_table=None):
+    """what the PEER sees is judged: every buffer the transport was handed, as one stream (props/c05_stream.py)"""
+    table = status_table or T.STATUS
+    # the same request on a transport that accepts everything: what the server emits, whatever the number of buffers
+    twins = {T.twin_key(c): r['recv'] for c, r, il, ml in results if c.ws == 'all' and r['writes']}
     for c, r, il, ml in results:
         res.evaluations += 1
         res.count(c.kind.split(':')[0] + ' ' + c.entry)
@@ -123,26 +139,50 @@ def judge(res, results, status_table=None):
         full = r['writes'][0] if r['writes'] else b''
         if c.ws.startswith('e:') and not r['writes']:
             continue   # the very first write call failed: nothing was emitted, Server::process must report it
-        resp, why = K.parse_resp(full, status_table)
-        if resp is None:
-            res.fail('malformed-response', c.line[:300], full[:160].hex(), None, f'C05: emitted bytes are not a well-formed response: {why}')
+        parsable = K.request_is_parsable(c.raw, 10000 if c.alloc is None else c.alloc)
+        declared = c.method.split(',')      # several requests sent in one go: the method of each
+        meth = (declared[0] if c.kind != 'mutated' and c.method != '?' else c.raw.split(b'\n', 1)[0].decode('utf-8', 'replace').strip(K.RUST_WS).split(' ', 1)[0]) if parsable else 'GET'
+        methods = [meth] + declared[1:] if parsable else [meth]
+        # the bytes the server emitted: its one buffer; when it handed over several (an interim answer, head and body apart, a
+        # second answer) everything a transport that accepts all receives - unless the first buffer already is a whole answer:
+        # then nothing may follow it (the delivery clause below says so)
+        single = T.single_buffer(r, c.ws) or T.complete_final(full, table, meth)
+        twin = twins.get(T.twin_key(c))
+        emitted = full if single else r['recv'] if c.ws == 'all' else twin if twin is not None else full
+        try: stream = T.split_stream(emitted, table, methods)
+        except H.Bad as e:
+            res.fail('malformed-response', c.line[:300], emitted[:160].hex(), None, f'C05: emitted bytes are not a well-formed response: {e}')
             continue
-        parsable = K.request_is_parsable(c.raw, c.alloc or 10000)
-        meth = (c.method if c.kind != 'mutated' and c.method != '?' else c.raw.split(b'\n', 1)[0].decode('utf-8', 'replace').strip(K.RUST_WS).split(' ', 1)[0]) if parsable else 'GET'
-        for b in H.check_framing(resp, meth):
-            res.fail('framing:' + b, c.line[:300], full[:200].hex(), None, f'C05: {b} (method {meth})')
-        for n, v in resp['headers']:
-            if n.lower() not in SERVER_HEADER_NAMES:
-                res.fail('injected-header', c.line[:300], n, None, f'C05: header name {n!r} is not one the server emits: client text split or added a header line')
-            if '\r' in v or '\n' in v:
-                res.fail('line-break-in-header', c.line[:300], v[:60], None, 'C05: header value contains a line break')
-            if c.note and v.strip() == c.note:
-                res.fail('injected-header', c.line[:300], n + ': ' + v, None, f'C05: the header line {n}: {v} was written by the client, not by the server: client text added a header line')
+        for resp, m in stream:
+            bad = H.check_framing(resp, m) if m != 'interim' else (['body-on-interim'] if resp['body'] else [])
+            if resp['status'] == 304 and not resp['body']: bad = [b for b in bad if b != 'content-length-mismatch']   # HTTP's other exception
+            for b in bad:
+                res.fail('framing:' + b, c.line[:300], emitted[:200].hex(), None, f'C05: {b} (method {m})')
+            for n, v in resp['headers']:
+                if n.lower() not in SERVER_HEADER_NAMES and n.lower() not in STANDARD_RESPONSE_FIELDS:
+                    res.fail('injected-header', c.line[:300], n, None, f'C05: header name {n!r} is not one the server emits: client text split or added a header line')
+                if '\r' in v or '\n' in v:
+                    res.fail('line-break-in-header', c.line[:300], v[:60], None, 'C05: header value contains a line break')
+                if c.note and v.strip() == c.note:
+                    res.fail('injected-header', c.line[:300], n + ': ' + v, None, f'C05: the header line {n}: {v} was written by the client, not by the server: client text added a header line')
         # delivery: unless the script fails a call, the peer must have received every byte
         if c.ws.startswith('e:'):
             continue
-        if r['recv'] != full:
-            res.fail('short-delivery', c.line[:120] + '…', f'peer received {len(r["recv"])} of {len(full)} bytes', None,
+        if T.refuses(c.ws):
+            # the peer stopped taking bytes: nothing can be delivered in full; what did arrive is the beginning of the response
+            # (an endless retry or a panic was judged above: the harness ends a case that does not return)
+            if not emitted.startswith(r['recv']) and not S.mask_ts(emitted).startswith(S.mask_ts(r['recv'])):
+                res.fail('short-delivery', c.line[:120] + '…', f'peer received {len(r["recv"])} bytes that are not the beginning of the response', None,
+                         f'C05: transport script {c.ws} stopped accepting bytes; what it had accepted is not a prefix of the response')
+            continue
+        if single or twin is None:
+            delivered = r['recv'] == full
+        else:
+            delivered = c.ws == 'all' or S.mask_ts(r['recv']) == S.mask_ts(twin)
+        if not delivered:
+            more = len(r['recv']) > len(emitted) and r['recv'].startswith(emitted)
+            res.fail('short-delivery', c.line[:120] + '…', f'peer received {len(r["recv"])} of {len(emitted)} bytes', None,
+                     f'C05: {len(r["recv"]) - len(emitted)} bytes follow the complete response on the connection (a second answer)' if more else
                      f'C05: transport script {c.ws} accepted the response in pieces but only a part was delivered')
         if c.flush == 'e' and c.entry == 'proc' and head != 'err':
             res.fail('flush-error-ignored', c.line[:120], head, None, 'C05: flush failed but Server::process reported success')
